@@ -156,6 +156,7 @@ def run(ctx):
         d = c['steps'][1]
         nontriv = d['pshape'] != d['shape'] or d['mask']['k'] != 'none' or d['os'] > 1 or d['du'][0] != d['du'][1]
         ctx.case(key_of(c), nontrivial=nontriv)
+    ox.binding_selftest(ctx, lentil, cases[0], spec[cases[0]['id']])
     ctx.traces += len(cases)
     ctx.sample({'case': cases[0], 'spec_observations': spec[0]['obs']}, maxn=1)
     ctx.extra['image_to_pupil_cases'] = sum(1 for c in cases if c['dir'] == 'p2i2p')
